@@ -28,7 +28,9 @@ type CallRec struct {
 	DisableGC bool
 	Resp      *change.Pack
 	Err       error
-	Lost      bool // the response was never applied by the client
+	Lost      bool           // the response was never applied by the client
+	Force     bool           // compaction: forced
+	Row       *change.Change // compaction: the single rebuilt change now in the log (nil = empty log)
 }
 
 // MClient performs, step by step, what client.Client does around a document.
